@@ -458,7 +458,7 @@ def _has_float(body) -> bool:
 
 def gen_model(rng, *, stratum: str):
     """stratum: exact | float | names | unsupported:<kind> | refclash | boolnum | gennames | samepath | sharedfn |
-    permargs | body | compartment | concname | reserved"""
+    permargs | body | compartment | concname | reserved | digits"""
     floaty = stratum == "float"
     mk_fn.styles = ["p", "letters"] if stratum == "sharedfn" else (
         ["perm"] if stratum == "permargs" else ["p", "same", "letters", "perm"])
@@ -653,6 +653,14 @@ def gen_model(rng, *, stratum: str):
         # constants, functions of the tables, the module names.  The functions use p0, p1, … as parameters, so the
         # Python source is unaffected; after the renaming the body holds the component's name.
         pass
+    if stratum == "digits":
+        # values that need 16-17 significant digits (0.1 + 0.2, 1/3): libsbml's writer keeps 15 (finding F-C08-18)
+        tgt = [pr for pr in model["params"] if pr[1][0] == "val"][:1] + [vr for vr in model["vars"] if vr[1][0] == "val"][:1]
+        for t in tgt[: rng.choice([1, len(tgt)])]:
+            t[1] = ["val", _val(float(rng.choice(["0.30000000000000004", "0.3333333333333333", "0.7000000000000001",
+                                                   "1.1000000000000001", "2.6750000000000003"])))]
+            case.setdefault("exact_init", []).append(t[0])
+        case["finding"] = "F-C08-18"
     if stratum == "concname":
         # a component called like the quantity the third-party importer adds for a species written as an amount
         # (`<species>_conc` = amount / compartment size): finding F-C08-17
@@ -1118,7 +1126,7 @@ def lean_val(v):
     return v
 
 
-def view(numbers, name_of, kinds, ref=None, stats=None, fill_none=False):
+def view(numbers, name_of, kinds, ref=None, stats=None, fill_none=False, exact=()):
     """project a model's numbers on the original names.
     numbers: {"init": {name: v}, "at": [{"vals": {..}, "rhs": {..}}]} keyed by that model's own names
     name_of: original name -> name in that model; values within tolerance of `ref` (same shape) are snapped to it"""
@@ -1135,6 +1143,8 @@ def view(numbers, name_of, kinds, ref=None, stats=None, fill_none=False):
             r = r.get(n)
         if v is None and fill_none:
             return r
+        if path == ["init"] and n in exact:
+            return v  # an attribute value is not computed: it has to come back as the very same double
         if r is not None and v is not None:
             c = close(v, r)
             if stats is not None:
@@ -1167,8 +1177,8 @@ def judge_case(ctx, case, R, M):
     }
     kinds["all"] = kinds["static"] + kinds["dynamic"]
     small = {k: case.get(k) for k in ("kind", "model", "states", "must_raise", "finding", "floaty", "source", "prev",
-                                       "compartments", "options", "refuse")
-             if k not in ("compartments", "options", "refuse") or case.get(k) is not None}
+                                       "compartments", "options", "refuse", "exact_init")
+             if k not in ("compartments", "options", "refuse", "exact_init") or case.get(k) is not None}
     r_exp = "error" if "err" in R["export"] else "ok"
     m_exp = None if M is None else ("error" if "err" in M["export"] else "ok")
     if M is not None and bool(M["unsupported"]) != bool(case["must_raise"]):
@@ -1228,6 +1238,11 @@ def judge_case(ctx, case, R, M):
             ctx.add_drift(small, "export ok", M["export"], "model predicts an export error")
         else:
             rd, md = canon_doc(R["export"]["ok"]), canon_doc(M["export"]["ok"])
+            if case.get("finding") == "F-C08-18":
+                # the model's document holds the exact value, the file what libsbml's writer made of it (15 digits)
+                for dd in (rd, md):
+                    dd["params"] = [[k, None] for k, _ in dd["params"]]
+                    dd["species"] = [[k, None] for k, _ in dd["species"]]
             if json.dumps(rd, sort_keys=True) != json.dumps(md, sort_keys=True):
                 ctx.add_drift(small, rd, md, "written document differs from exportModel")
     ident = {n: n for n in kinds["all"]}
@@ -1244,7 +1259,7 @@ def judge_case(ctx, case, R, M):
     if "err" in R["read"]:
         Rv = {"err": R["read"]["err"]}
     else:
-        Rv = view(R["read"], imp, kinds, ref=S, stats=stats)
+        Rv = view(R["read"], imp, kinds, ref=S, stats=stats, exact=case.get("exact_init") or ())
     Mv = None
     if M is not None and m_exp == "ok":
         Mv = view(lean_numbers(M["read"]), imp, kinds, ref=S, stats=stats, fill_none="err" not in Rv)
@@ -1267,7 +1282,7 @@ def judge_case(ctx, case, R, M):
     for k, v in stats.items():
         ctx.hist[f"numbers {k}"] = ctx.hist.get(f"numbers {k}", 0) + v
     fid = case["finding"]
-    if fid in ("F-C08-9", "F-C08-17"):
+    if fid in ("F-C08-9", "F-C08-17", "F-C08-18"):
         Mv = None  # pysbml refuses booleans as numbers / reuses a component's name; the model does not predict the third party
     ctx.judge(small, Rv, S, Mv, finding=fid, what="export -> import changes names, initial values, derived values, fluxes or derivatives")
 
@@ -1374,7 +1389,7 @@ def shrink(ctx, viol, budget: int = 40):
                 break
             spent += 1
             try:
-                c2 = prepare({k: cand.get(k) for k in ("kind", "model", "states", "must_raise", "finding", "floaty", "prev", "compartments", "options", "refuse")})
+                c2 = prepare({k: cand.get(k) for k in ("kind", "model", "states", "must_raise", "finding", "floaty", "prev", "compartments", "options", "refuse", "exact_init")})
                 (R, M), = evaluate(ctx, [c2])
                 probe = Ctx(ctx.prop, ctx.tier, ctx.seed)
                 probe.known, probe.fixed = ctx.known, ctx.fixed
@@ -1439,7 +1454,7 @@ def strata(ctx):
     n = ctx.n(1, 32)
     plan = [("exact", 130 * n), ("float", 80 * n), ("names", 30 * n), ("refclash", 16 * n), ("boolnum", 9 * n),
             ("gennames", 24 * n), ("samepath", 16 * n), ("sharedfn", 26 * n), ("permargs", 24 * n), ("body", 20 * n),
-            ("compartment", 24 * n), ("concname", 6 * n), ("reserved", 24 * n)]
+            ("compartment", 24 * n), ("concname", 6 * n), ("reserved", 24 * n), ("digits", 6 * n)]
     plan += [(f"unsupported:{k}", (2 if k.startswith("near:") else 3) * n) for k, _ in UNSUPPORTED]
     return plan
 
@@ -1477,7 +1492,7 @@ def run(ctx):
 
 def replay(ctx, rp):
     case = rp["case"]
-    case = prepare({k: case.get(k) for k in ("kind", "model", "states", "must_raise", "finding", "floaty", "prev", "compartments", "options", "refuse")})
+    case = prepare({k: case.get(k) for k in ("kind", "model", "states", "must_raise", "finding", "floaty", "prev", "compartments", "options", "refuse", "exact_init")})
     (R, M), = evaluate(ctx, [case])
     print(case["source"])
     print("R =", json.dumps(R, indent=1)[:4000])
